@@ -21,6 +21,7 @@
 import Proofs.C13
 import Proofs.C13Behaviour
 import Proofs.C13Check
+import Model.NestedNames
 
 namespace TM
 open Build
@@ -114,99 +115,43 @@ theorem C13_ctor_eq_later_adds (F : Filter) (o : Opts) (S : Option (List SSpec))
       (buildF F o (ctorOps S i T ord)).bind fun b => applyOpsF F b rest :=
   applyOpsF_append F _ _ _
 
-/-- selectors compared by the state they name, whatever their Python type -/
-def selHasN (l : List Sel) (n : Nat) : Bool := l.any fun x => x.name == n
+/-- **Removal ≡ never added.** Let a script `ops` build `b` (no call raises).  Then for
+`remove_transition(ev, S, D)` — `S`, `D` lists of names / Enum members / State objects or `'*'`:
 
-def keepByName (src dst : Option (List Sel)) (t : Trans) : Bool :=
-  (match src with
-    | some l => !selHasN l t.source
-    | none => false) ||
-  (match dst with
-    | some l => (match t.dest with
-      | some d => !selHasN l d
-      | none => true)
-    | none => false)
+1. for every machine `bs` that the *same script with the transitions of `ev` from a state in `S` to a
+   state in `D` never created* (`buildF (suppress ev S D)`) builds: the call raises exactly when the event
+   is unknown in `b`, and otherwise the machine after the call is `≈ bs`, where an event left without
+   any transition does not exist (`dropEmptyEvent`), with the same `_initial` and flags.
+   `ops` is arbitrary — it may contain earlier removals, also on `ev`.
+2. the never-added script does build a machine whenever `ops` contains no earlier `remove_transition`
+   on `ev`.  (With one, it can raise where the real script does not: `remove_transition` raises KeyError
+   for a trigger that — without the never-added transitions — has already been deleted; see the
+   `example` below.  That is the only thing the hypothesis excludes.) -/
+theorem C13_remove_as_never_added (o : Opts) (ops : List Op) (ev : Nat) (S D : Option (List Nat)) (b : B)
+    (hb : build o ops = some b) :
+    (∀ bs, buildF (suppress ev S D) o ops = some bs → RemoveResult b bs ev S D) ∧
+    ((∀ op ∈ ops, op.removesEvent ≠ some ev) → ∃ bs, buildF (suppress ev S D) o ops = some bs) :=
+  remove_core o ops ev S D b hb
 
-/-- never create the transitions of `ev` that the selectors name -/
-def suppressByName (ev : Nat) (S D : Option (List Sel)) : Filter := fun e t => e != ev || keepByName S D t
-
-/-- "`remove_transition(ev, S, D)` after a script that builds `b` ≈ the same script in which the
-transitions of `ev` from a state named by `S` to a state named by `D` are never created (an event
-left without any transition does not exist); it raises exactly when the event is unknown."
-`ops` may contain anything but an earlier `remove_transition` of the same event. -/
-def RemoveAsNeverAdded (S D : Option (List Sel)) : Prop :=
-  ∀ (o : Opts) (ops : List Op) (ev : Nat) (b : B),
-    (∀ op ∈ ops, op.removesEvent ≠ some ev) → build o ops = some b →
-    ∃ bs, buildF (suppressByName ev S D) o ops = some bs ∧
-      match b.remove ev S D with
-      | none => b.cfg.event? ev = none
-      | some b' => b'.cfg ≈ (bs.dropEmptyEvent ev).cfg ∧ b'.init = (bs.dropEmptyEvent ev).init ∧
-          b'.auto = (bs.dropEmptyEvent ev).auto ∧ b'.mign = (bs.dropEmptyEvent ev).mign
-
-/-- **Removal, full strength** (kept visible; FALSE for the pinned tree, see the counterexample):
-for every selector, whatever its Python representation. -/
-def C13_remove_as_never_added : Prop := ∀ S D, RemoveAsNeverAdded S D
-
-def allStr : Option (List Sel) → Bool
-  | none => true
-  | some l => l.all (·.str)
-
-/-- **Removal, as the code stands.** For selectors given as strings (or `'*'`),
-`remove_transition` makes the machine what it would be had the matching transitions never been
-added. -/
-theorem C13_remove_as_never_added_partial (S D : Option (List Sel)) (hS : allStr S = true) (hD : allStr D = true) :
-    RemoveAsNeverAdded S D := by
-  have hsel : ∀ (l : List Sel), l.all (·.str) = true → ∀ n, selHas l n = selHasN l n := by
-    intro l hl n
-    induction l with
-    | nil => rfl
-    | cons x r ih =>
-      simp only [List.all_cons, Bool.and_eq_true] at hl
-      simp only [selHas, selHasN, List.any_cons, hl.1, Bool.true_and] at ih ⊢
-      rw [ih hl.2]
-  have hk : ∀ t, keepByName S D t = keepT S D t := by
-    intro t
-    cases S with
-    | none =>
-      cases D with
-      | none => rfl
-      | some d => cases hd : t.dest <;> simp only [keepByName, keepT, hd, hsel d hD]
-    | some s =>
-      cases D with
-      | none => simp only [keepByName, keepT, hsel s hS]
-      | some d => cases hd : t.dest <;> simp only [keepByName, keepT, hd, hsel s hS, hsel d hD]
-  intro o ops ev b hno hb
-  have hF : suppressByName ev S D = suppress ev S D := by
-    funext e t
-    simp only [suppressByName, suppress, hk]
-  rw [hF]
-  exact remove_core o ops ev S D hno b hb
-
-/-- the witness: two states, `e0: s0 → s1` and `e0: s1 → s0`, then
-`remove_transition('e0', source=<Enum member / State object naming s0>)` -/
+/-- two states, `e0: s0 → s1` and `e0: s1 → s0` (the witness of the former counterexample:
+`remove_transition('e0', source=<Enum member / State object naming s0>)` used to remove nothing) -/
 def C13_witness_ops : List Op :=
   [.addStates [{ name := 0 }, { name := 1 }] none,
    .addTransition 0 (.one 0) (.to 1) {}, .addTransition 0 (.one 1) (.to 0) {}]
 
-/-- **Removal, counterexample.** With a source selector that is not a string (an Enum member or a
-State object — both documented), `Machine.remove_transition` removes nothing: the machine still has
-the transition from `s0` although a machine on which it was never added has not. -/
-theorem C13_remove_as_never_added_counterexample : ¬ C13_remove_as_never_added := by
-  intro hfull
-  obtain ⟨bs, hbs, hm⟩ := hfull (some [⟨0, false⟩]) none { auto := false } C13_witness_ops 0
-    ((((start { auto := false }).addStates allT [{ name := 0 }, { name := 1 }] none).addTransition allT 0
-      (.one 0) (.to 1) {}).addTransition allT 0 (.one 1) (.to 0) {})
-    (by intro op hm; simp [C13_witness_ops] at hm; rcases hm with rfl | rfl | rfl <;> simp [Op.removesEvent])
-    rfl
-  have hbs' : buildF (suppressByName 0 (some [⟨0, false⟩]) none) { auto := false } C13_witness_ops =
-      some ((((start { auto := false }).addStates (suppressByName 0 (some [⟨0, false⟩]) none)
-        [{ name := 0 }, { name := 1 }] none).addTransition (suppressByName 0 (some [⟨0, false⟩]) none) 0
-        (.one 0) (.to 1) {}).addTransition (suppressByName 0 (some [⟨0, false⟩]) none) 0 (.one 1) (.to 0) {}) := rfl
-  rw [hbs'] at hbs
-  injection hbs with hbs
-  subst hbs
-  have hc := hm.1.cands 0 0
-  exact absurd hc (by decide)
+/-- regression: on the witness the removal leaves exactly the machine on which `s0 → s1` was never added -/
+example :
+    (do let x ← build { auto := false } (C13_witness_ops ++ [.remove 0 (some [0]) none])
+        let y ← build { auto := false } [.addStates [{ name := 0 }, { name := 1 }] none,
+                                         .addTransition 0 (.one 1) (.to 0) {}]
+        pure (equivCheck x.cfg y.cfg)) = some true := by decide
+
+/-- necessity of the hypothesis in part 2: after an earlier removal on the same trigger the never-added
+script raises (the trigger is already gone) although the real script does not -/
+example :
+    let ops := C13_witness_ops ++ [.remove 0 (some [1]) none, .remove 0 (some [1]) none]
+    (build { auto := false } ops).isSome = true ∧
+    (buildF (suppress 0 (some [0]) none) { auto := false } ops).isSome = false := by decide
 
 /-- **Equivalent machines behave identically.** Whatever the callbacks do (raise, re-enter the
 API, anything the script says), for every history, fuel and queue bound, started from any engine
@@ -228,6 +173,22 @@ machines is sound: when it answers `ok` the two configurations are `≈`, hence 
 indistinguishable by any history. -/
 theorem C13_equivCheck_sound (a b : Cfg) (h : equivCheck a b = true) : a ≈ b :=
   equivCheck_sound a b h
+
+/-- **Hierarchical names, joined ≡ nested.** On fresh ground (nothing registered at or below the first
+segment) `add_states('a_b_c')` in any scope creates exactly the states the nested dict chain
+`{'name': a, 'children': [{'name': b, 'children': ['c']}]}` creates — the parents on the fly, same order.
+(Where a segment is registered the forms differ by design: the joined name reuses it / raises for the
+last one, the dict silently replaces it; `Model/NestedNames.lean`.) -/
+theorem C13_joined_names_eq_nested_dict (sc : NestedNames.Path) (a : Nat) (rest : List Nat)
+    (s : List NestedNames.Path) (h : NestedNames.Fresh (sc ++ [a]) s) :
+    NestedNames.addJoined sc (a :: rest) s = NestedNames.addChainDict sc (a :: rest) s :=
+  NestedNames.addJoined_eq_chainDict rest sc a s h
+
+/-- … and a joined name whose first segment is registered is the rest of the name in that scope -/
+theorem C13_joined_name_existing_parent (sc : NestedNames.Path) (a b : Nat) (rest : List Nat)
+    (s : List NestedNames.Path) (h : (sc ++ [a]) ∈ s) :
+    NestedNames.addJoined sc (a :: b :: rest) s = NestedNames.addJoined (sc ++ [a]) (b :: rest) s :=
+  NestedNames.addJoined_existing_parent sc a b rest s h
 
 /-- non-vacuity: the wildcard script and its expansion (different `Op` lists, events created in a
 different order) are accepted by the checker; a script with one transition less is not -/
